@@ -984,12 +984,12 @@ def _gen_load_case(rng, valid=True):
 
 def generate(rng, tier):
     cases = []
-    n = 1300 if tier == "quick" else 12000
+    n = 1300 if tier == "quick" else 24000
     for _ in range(n):
         cases.append(_gen_case(rng, tier))
-    for _ in range(450 if tier == "quick" else 5000):
+    for _ in range(450 if tier == "quick" else 10000):
         cases.append(_gen_load_case(rng, True))
-    for _ in range(150 if tier == "quick" else 2000):
+    for _ in range(150 if tier == "quick" else 4000):
         cases.append(_gen_load_case(rng, False))
     for _ in range(3 if tier == "quick" else 20):
         cases.append(_gen_case(rng, tier, maxb=PROD, nops=rng.randint(8, 40), mode="none"))
